@@ -34,6 +34,12 @@ PROP = dict(
           "UTF-16 code units with supplementary-plane characters (surrogate pairs), CR|LF pairs and BMP characters starting at code unit "
           "2048k-1+delta, delta in -4..4 (k = 1..4), further pairs right after the edge and an earlier pair in the run, in UTF-16LE/BE and UTF-8 "
           "with BOM and plain UTF-8; same oracle as bom. "
+          "Assignment while open (op 'as'): a File / TextFile that has the path open for WRITE / APPEND with n bytes written and not yet closed is "
+          "assigned File(the same path) or File(another existing file); the assignment closes the handle, so size(), content() and text() through the "
+          "object (size first, no unbounded loop) and the fresh-object checks must show the target file. The readLine(char newline) overload is run with "
+          "'\\n' in the documented while(!end()) loop on every text up to 5000 bytes (a quarter of those up to 40000): the sequence must be the reference "
+          "lines, one CR before an LF accepted as kept or removed; and with a second delimiter (CR or 'a') on texts up to 2500 bytes: the pieces between "
+          "its occurrences. The lines part has line lengths 998..1003, 2001..2005, 2999, 3000 and random up to 3000 in addition. "
           "Non-trivial: hist - a phase leaves >= 255 bytes in the file or appends after a reopen or queries an open writer and writes on; bomlong - all; lines - a raw line of >= 254 bytes (crosses the "
           "255-byte fgets chunk) or CRLF and lone CR in one text; bom - a supplementary-plane scalar or a CR LF pair; copy and grid - all. Distinct = "
           "distinct FNV-1a hash of the serialised case."),
